@@ -29,6 +29,11 @@ def handleTables (_j : Json) : R Json := do
     ("dispatch", Json.arr (distDispatch.map fun (k, f) => Json.arr #[Json.str k, Json.str (reprStr f)]).toArray),
     ("masses", Json.arr (atomicMasses.map fun (z, m) => Json.arr #[natToJson z, ratToJson m]).toArray)])
 
+/-- the translated `choose_compatible_weight` on a vector of weights -/
+def handleChooseX (j : Json) : R Json := do
+  let ws ← listOf ratOf (← getF j "ws")
+  pure (Json.mkObj [("p", ratsToJson (chooseWeightsX ws))])
+
 def handleGen (j : Json) : R Json := do
   let els ← listOf elementOf (← getF j "els")
   let ev ← listOf eventOf (← getF j "ev")
@@ -252,6 +257,7 @@ def handle (j : Json) : R Json := do
   | "COMPATMAT" => handleCompatMat j
   | "CPROB" => handleCProb j
   | "TABLES" => handleTables j
+  | "CHOOSEX" => handleChooseX j
   | _ => throw s!"unknown op {op}"
 
 def handleLine (line : String) : String :=
